@@ -8,6 +8,7 @@
 // their (fixed, "rare": 1/2/3-byte) column widths; array data length is fixed per harness (BOUNDED in the shapes tried).
 use super::*;
 use crate::creator::directory_pack::layout::{Properties, Property};
+use crate::common::ContentAddress;
 use crate::creator::directory_pack::{Array, ArrayS, EntryTrait, Value};
 
 fn fmt_stub(_args: std::fmt::Arguments<'_>) -> String {
